@@ -8,6 +8,7 @@ mkdir -p run evidence replays
 if [ -d translate ] && [ -f translate/go.mod ]; then
   (cd translate && go build -o bin/translate . && ./bin/translate -repo /repo -out ../lean/MgpuModel/Gen -only all)
 fi
+python3 gen_main.py
 (cd lean && lake build)
 (cd harness && cp /repo/go.sum go.sum && go build -tags verif -o bin/harness .)
 echo setup done
